@@ -85,6 +85,7 @@ class Interp:
         self.loop_id = 0
         self.inline_filter = inline_filter
         self.unresolved = []            # linkage: self attributes / methods that do not resolve
+        self.inline_functions = set()   # names of module-level GemClus functions to inline (e.g. check_groups)
 
     # ------------------------------------------------------------ entry
     def run_method(self, name, args=None, owner=None, self_term=("var", "self")):
@@ -524,6 +525,20 @@ class Interp:
         name = fsrc
         if isinstance(f, tuple) and f[0] == "global":
             name = f[1]
+            obj = glob.get(name)
+            import types
+            if (self.inline and isinstance(obj, types.FunctionType) and (getattr(obj, "__module__", "") or "").startswith("gemclus")
+                    and depth < self.max_depth and name in self.inline_functions and ("fn", name) not in self.frames):
+                try:
+                    node, fobj = fn_ast(obj)
+                except (OSError, TypeError):
+                    node = None
+                if node is not None and not any(isinstance(x, (ast.Yield, ast.YieldFrom)) for x in ast.walk(node)):
+                    self.frames.append(("fn", name))
+                    try:
+                        return self.inline_fn(node, {}, args, kw, st, fobj.__globals__, None, depth, name)
+                    finally:
+                        self.frames.pop()
         return [self.opaque_call(name, f, args, kw, st)]
 
     def opaque_call(self, name, f, args, kw, st):
